@@ -503,6 +503,7 @@ def r16_7(ctx):
     F = ctx.facts
     memo = {}
     n = 0
+    per_entry = {}
     for lb in F.find(crate=EY):
         if lb.kind != "coroutine" or not lb.built:
             continue
@@ -527,12 +528,35 @@ def r16_7(ctx):
                         d = F.fn(EY, pth)
                         if d is not None and d.built and d.built.calls(wakers.REARM_PAT):
                             guarded = True
-        for fld in sorted(fields):
-            n += 1
-            ctx.verdict(guarded, "R16.7", root, "queued-request-outlives-future:%s:%s" % (root.name or "?", fld), root.loc(),
-                        "a drop guard re-arms the stored request when the future is dropped",
-                        "`%s` polls the lock request stored in the subscriber (`%s`) from inside its own future: if that future is dropped while the request is queued (timeout / select! while a write guard is held or a writer is queued), the request stays queued, is granted a read permit at the next release and keeps it until the subscriber is polled again or dropped - "
-                        "`try_write()` then fails and `set().await` / `write().await` wait although no guard exists (a self-deadlock when the same task continues with a setter); the default flavour has no such state" % (root.path, fld))
+        # the finding belongs to the public methods whose future contains this one (a private async helper is awaited inside them)
+        entries, frontier, seen = [], [root], set()
+        while frontier:
+            r_ = frontier.pop()
+            if r_.path in seen:
+                continue
+            seen.add(r_.path)
+            if r_.vis == "pub" or len(seen) > 12:
+                entries.append(r_)
+                continue
+            ups = []
+            for g in F.find(crate=EY):
+                if g.built and root_fn(F, g) is not r_ and any(F.local_callee(g, t) is r_ for blk, t in g.built.calls()):
+                    ups.append(root_fn(F, g))
+            if ups:
+                frontier.extend(ups)
+            else:
+                entries.append(r_)
+        for e_ in entries:
+            per_entry.setdefault(e_.path, (e_, set(), []))
+            per_entry[e_.path][1].update(fields)
+            per_entry[e_.path][2].append(guarded)
+    for pth, (e_, fields, gs) in sorted(per_entry.items()):
+        n += 1
+        guarded = all(gs)
+        ctx.verdict(guarded, "R16.7", e_, "queued-request-outlives-future:%s" % (e_.name or "?"), e_.loc(),
+                    "a drop guard re-arms the stored request when the future is dropped",
+                    "`%s` polls the lock request stored in the subscriber (field %s) from inside its own future: if that future is dropped while the request is queued (timeout / select! while a write guard is held or a writer is queued), the request stays queued, is granted a read permit at the next release and keeps it until the subscriber is polled again or dropped - "
+                    "`try_write()` then fails and `set().await` / `write().await` wait although no guard exists (a self-deadlock when the same task continues with a setter); the default flavour has no such state" % (e_.path, ", ".join("`%s`" % x for x in sorted(fields))))
     return n
 
 
